@@ -1,12 +1,10 @@
 import JL.Generated.Fns
+import JL.Lemmas.TieAuto
 /-! tie: `truthy`, as translated from the crate's current source, is the model's function - for every input -/
 namespace JL.Tie
 open JL
 
 theorem truthy (v : Json) : Gen.truthy v = JL.truthy v := by
-  cases v <;> simp [Gen.truthy, JL.truthy, rs]
-  · rename_i n; rcases Bool.eq_false_or_eq_true (n.toF64.eq F64.zero) with h | h <;> simp [h]
-  · rename_i s; cases s <;> simp
-  · rename_i xs; cases xs <;> simp
+  cases v <;> tie_close [Gen.truthy, JL.truthy]
 
 end JL.Tie
